@@ -131,6 +131,7 @@ type PathState struct {
 	sigApps  []hashApp
 	hashFacts map[[2]int]bool
 	raceSeen  map[string]bool
+	tick      int
 	atomicDepth int
 	ended    bool
 	killing      bool
